@@ -211,6 +211,14 @@ func (env *SpecEnv) eval(e *SExpr) SVal {
 				bt = tAnd(append(guards, bt)...)
 			}
 		}
+		if e.Op == "exists" && len(e.Binders) == 1 {
+			// "exists m Int :: real(m) == ..." as a proof goal: let the solver try the integers whose real value
+			// already occurs in the context as witnesses
+			name := smtIdent("q!" + e.Binders[0].Name)
+			if pat := "(to_real " + name + ")"; strings.Contains(bt.S, pat) {
+				return SVal{T: mk(fmt.Sprintf("(exists (%s) (! %s :pattern (%s)))", strings.Join(bs, " "), bt.S, pat), sortBool)}
+			}
+		}
 		return SVal{T: mk(fmt.Sprintf("(%s (%s) %s)", e.Op, strings.Join(bs, " "), bt.S), sortBool)}
 	}
 	env.fail("cannot evaluate %s", e)
@@ -1066,6 +1074,8 @@ func (env *SpecEnv) callExpr(e *SExpr) SVal {
 			vc.needStr, vc.needDigits, rs = true, true, sortReal
 		case "is_int":
 			rs = sortBool
+		case "to_int":
+			rs = sortInt
 		case "dvalid":
 			vc.needStr, vc.needDigits, rs = true, true, sortBool
 		case "dpow10":
